@@ -2445,7 +2445,12 @@ func repairWalFile(src, dst string) error {
 	}
 	defer in.Close()
 
-	out, err := os.Create(dst)
+	// The repaired file replaces dst in one step, after it has reached the disk: dst
+	// may be the only copy of records that were written with synced writes, and a
+	// crash in the middle of rewriting it in place would leave a short log that the
+	// next start takes for a good one.
+	tmp := dst + ".repair"
+	out, err := os.Create(tmp)
 	if err != nil {
 		return err
 	}
@@ -2469,5 +2474,11 @@ func repairWalFile(src, dst string) error {
 		}
 	}
 
-	return nil
+	if err := out.Sync(); err != nil {
+		return fmt.Errorf("failed to sync the repaired file: %w", err)
+	}
+	if err := out.Close(); err != nil {
+		return fmt.Errorf("failed to close the repaired file: %w", err)
+	}
+	return os.Rename(tmp, dst)
 }
